@@ -121,8 +121,15 @@ def case_roundtrip(ctx, rng, idx):
                 okc, _ = ctx.call("round-trip", obj.set_channel_matrix, given.copy(), detail=tag)
             if not okc:
                 return
-            if scheme in ("blast", "mrc", "gmd") and rng.random() < 0.5:
-                obj.set_noise_var(None if rng.random() < 0.5 else 0.0)
+            if scheme in ("blast", "mrc", "gmd") and rng.random() < 0.7:
+                if rng.random() < 0.6:
+                    # the object was used with noise (MMSE receiver) before
+                    obj.set_noise_var(float(10.0 ** rng.uniform(-3, 0.5)))
+                    xx = gen_data(rng, Nt if scheme != "mrc" else 1, "complex")
+                    obj.decode(H @ np.asarray(obj.encode(xx)))
+                    how += "+noise-then-zero"
+                obj.set_noise_var(None if rng.random() < 0.5 else
+                                  (0.0 if rng.random() < 0.5 else 0))
             layers = obj.getNumberOfLayers()
             ctx.ev("layers", layers == {"blast": Nt, "mrc": 1, "mrt": 1, "svd": Nt, "gmd": Nt,
                                         "alamouti": 1}[scheme] and obj.Nt == Nt and obj.Nr == Nr,
